@@ -1436,6 +1436,49 @@ func e2eCases(res *runResult, sb *strings.Builder, n *int) {
 	}
 }
 
+// respCases: the response protocol of one run as a trace of Batch/Resp.v — NewCaller (a request entered a
+// shard), Spawn (a batch was cut: its tuples), Deliver / Skip (the export goroutine answered / gave up on a tuple).
+// The callers' own steps (receive, context end) are not logged; the model fills them in.
+func respCases(res *runResult, sb *strings.Builder, n *int) {
+	p := res.plan
+	if p.Cfg.Early || res.hang != "" {
+		return
+	}
+	caller := map[int]int{} // waiter id -> caller index
+	export := map[int]int{} // export vid -> queue index
+	var evs []string
+	for _, e := range res.log {
+		switch e.Kind {
+		case "recv":
+			if e.Waiter == 0 {
+				return
+			}
+			if _, ok := caller[e.Waiter]; !ok {
+				caller[e.Waiter] = len(caller)
+				evs = append(evs, fmt.Sprintf("NewCaller %d%%Z", e.Num))
+			}
+		case "send":
+			export[e.Export] = len(export)
+			var ts []string
+			for _, t := range e.Tuples {
+				ts = append(ts, fmt.Sprintf("(%d%%nat, %d%%Z)", caller[t.Waiter], t.Count))
+			}
+			evs = append(evs, fmt.Sprintf("Spawn [%s]", strings.Join(ts, "; ")))
+		case "respond":
+			if e.Done {
+				evs = append(evs, fmt.Sprintf("Deliver %d", export[e.Export]))
+			} else {
+				evs = append(evs, fmt.Sprintf("Skip %d", export[e.Export]))
+			}
+		}
+	}
+	if *n > 0 {
+		sb.WriteString(";\n")
+	}
+	fmt.Fprintf(sb, " [%s]", strings.Join(evs, "; "))
+	*n++
+}
+
 func runSys(r *Rng, n int, focus, replay string, out *Output) {
 	var sb strings.Builder
 	sb.WriteString(`Definition case_t := {d : nat & (cfg * list (ev d) * list (send d) * list (bool * N))%type}.
@@ -1470,6 +1513,9 @@ Definition e2e2 (cf : cfg) (evs : list (ev 2)) (errs : list (option N)) (ws : li
 Definition e2e_cases : list e2e_t := [
 `)
 	ne2e := 0
+	var rb strings.Builder
+	rb.WriteString("Definition resp_cases : list (list rev) := [\n")
+	nresp := 0
 	stats := map[string]int{}
 	for i := 0; i < n; i++ {
 		forceTrickle = focus == "C09" && i%20 == 7
@@ -1488,6 +1534,9 @@ Definition e2e_cases : list e2e_t := [
 			}
 			if focus == "C06" {
 				e2eCases(res, &eb, &ne2e)
+			}
+			if focus == "C06" || focus == "C11" {
+				respCases(res, &rb, &nresp)
 			}
 		}
 		kind := fmt.Sprintf("signal=%d early=%v meta=%v shutdown=%s trickle=%v", p.Cfg.Signal, p.Cfg.Early, len(p.Cfg.MetaKeys) > 0, p.Cfg.Shutdown, p.Trickle)
@@ -1630,6 +1679,16 @@ Print syssize_propfail.
 Print systuple_mismatch.
 Print systuple_propfail.
 `)
+	if focus == "C06" || focus == "C11" {
+		rb.WriteString("\n].\n")
+		out.Coq.WriteString(rb.String())
+		out.Coq.WriteString(`(* the logged response protocol of every run is a trace of Batch/Resp.v (callers' steps filled in) *)
+Definition resp_mismatch := Eval vm_compute in failing raccepts resp_cases.
+Print resp_mismatch.
+`)
+		out.Lists = append(out.Lists, "resp_mismatch")
+		stats["resp_cases"] = nresp
+	}
 	switch focus {
 	case "C18":
 		out.Lists = append(out.Lists, "sysctx_mismatch", "sysctx_propfail")
